@@ -41,6 +41,13 @@
 //	                       hidden state variables `ret_i`
 //	bits.LeadingZeros64, bits.TrailingZeros64 (fourth prelude: bit scans), ^x on unsigned values
 //	                       (bitset.go)
+//	state order            (the topics of this file: declOrderTopics) the state tuple of a loop function and
+//	                       the join tuple of an `if` list the variables in the order of their DECLARATION
+//	                       (receiver, parameters, results, locals as they appear), not of their first
+//	                       assignment: reordering independent assignments, or swapping the arms of an `if`,
+//	                       does not change the signature of the loop functions.  The earlier topics keep the
+//	                       order of first assignment — their proofs were written against it; a new topic
+//	                       should be added to declOrderTopics.
 //
 // Nothing here is keyed on a function name; the only per-topic data is the table below.
 package main
@@ -58,6 +65,16 @@ var topics4 = []topic{
 	{name: "SuffixSegments", doc: "suffix/segments.go: scanLCP, Segments (the callback f is logged)", pkg: "suffix",
 		fns: []fnKey{{"", "scanLCP"}, {"", "Segments"}}, part2: true},
 	{name: "Bitset", doc: "bitset.go: clear, memberBefore, memberAfter", fns: methods("bitset", "clear", "memberBefore", "memberAfter"), part2: true},
+}
+
+// declOrderTopics: the topics whose loop-state and join tuples are in declaration order (see the
+// header: "state order").
+var declOrderTopics = map[string]bool{}
+
+func init() {
+	for _, t := range topics4 {
+		declOrderTopics[t.name] = true
+	}
 }
 
 func isPanicStmt(x *ast.ExprStmt) bool {
